@@ -95,6 +95,29 @@ class C13(PropertyCheck):
                 out.append(self.fixed_probe("dir%d" % n, base, [w, "z", "z", dst])); n += 1
             out.append(self.fixed_probe("dir%d" % n, base, ["ZRANGESTORE", dst, "z", "0", "5"])); n += 1
             out.append(self.fixed_probe("dir%d" % n, base, ["ZMPOP", dst, "z", "MIN"])); n += 1
+        # (3) every read-only word on a key of ITS type holding several elements, with every count / index of the small
+        # alphabet (a randomised read that edits a cached member list needs 0 < count < cardinality on a real collection)
+        rich = [("s", vset(["m1", "m2", "m3", "m4"])), ("s2", vset(["m2", "m3", "x"])), ("l", vlist(["x", "y", "z", "x"])),
+                ("h", vhash({"f": vstr("v"), "n": vint(3), "g": vstr("w")})), ("z", vzset({"m1": "1/1", "m2": "2/1", "m3": "2/1", "a": "5/2"})),
+                ("z2", vzset({"m2": "1/1", "q": "3/1"})), ("str", vstr("hello")), ("i", vint(7))]
+        class Typed:
+            def __init__(self, word, j): self.word, self.j, self.calls = word, j, 0
+            def choice(self, seq):
+                self.calls += 1
+                if "zz" in seq:      # the key alphabet
+                    w = self.word.upper()
+                    first = {"S": "s", "Z": "z", "H": "h", "L": "l"}.get(w[0], "str")
+                    if w in ("STRLEN", "SUBSTR"): first = "str"
+                    second = {"s": "s2", "z": "z2"}.get(first, first)
+                    return first if self.calls == 1 else second
+                return seq[self.j % len(seq)]
+        for w in getattr(self, "ro", []):
+            seen = set()
+            for j in range(8):
+                for argv in argvs_for(Typed(w, j), w)[:-2]:
+                    if tuple(argv) in seen: continue
+                    seen.add(tuple(argv))
+                    out.append(self.fixed_probe("dir%d" % n, rich, argv)); n += 1
         for k in ("s", "l", "h", "z"):
             out += [self.fixed_probe("dir%d" % (n + j), base, argv) for j, argv in enumerate(
                 [["MSET", "x", "1", k], ["RENAME", "nosuch", k], ["INCR", k], ["APPEND", k, "x"], ["SETRANGE", k, "0", "x"],
